@@ -844,3 +844,168 @@ M("c17-benign-finally-helper", "C17", "", "context.py",
             raise
         else:
             self.state.track_replay(operation_id=operation_id)""", expect="silent")
+
+# ----------------------------------------------------------------------------- C19
+M("c19-pop-instead-of-popleft", "C19", "R4.release-wakes-head", "threading.py",
+  "            self._waiters.popleft()", "            self._waiters.pop()")
+M("c19-wake-tail", "C19", "R4.release-wakes-head", "threading.py",
+  "                self._waiters[0].set()", "                self._waiters[-1].set()")
+M("c19-append-after-wait", "C19", "R2.enqueue-before-wait", "threading.py",
+  """            event = Event()
+            self._waiters.append(event)
+
+            if len(self._waiters) == 1:
+                # first waiter, nothing else in queue so no need to wait
+                event.set()
+
+        # block until it's our turn to proceed
+        event.wait()
+""", """            event = Event()
+
+            if len(self._waiters) == 0:
+                # first waiter, nothing else in queue so no need to wait
+                event.set()
+
+        # block until it's our turn to proceed
+        event.wait()
+        with self._lock:
+            self._waiters.append(event)
+""")
+M("c19-no-wake-all-on-exception", "C19", "R4.exceptional-exit-breaks-and-wakes-all", "threading.py",
+  "                for waiter in self._waiters:\n                    waiter.set()\n", "")
+M("c19-counter-returns-outside-lock", "C19", "R5.counter-read-modify-return-under-lock", "threading.py",
+  "        with self._lock:\n            self._counter += 1\n            return self._counter",
+  "        with self._lock:\n            self._counter += 1\n        return self._counter")
+M("c19-self-wake-always", "C19", "R2.enqueue-before-wait", "threading.py",
+  "            if len(self._waiters) == 1:", "            if len(self._waiters) >= 1:")
+M("c19-append-outside-lock", "C19", "R1.lock-discipline", "threading.py",
+  """    def reset(self) -> None:""", """    def enqueue_unlocked(self, event) -> None:
+        self._waiters.append(event)
+
+    def reset(self) -> None:""", expect="silent", desc="a new unused helper is not judged (no caller) - stays silent")
+M("c19-broken-not-retested", "C19", "R2.enqueue-before-wait", "threading.py",
+  """        # this is the only thread progressing and holding the lock, so doesn't need to be under lock
+        if self._is_broken:
+            msg = "Cannot acquire lock in guaranteed order because a previous lock exited with an exception."
+            raise OrderedLockError(msg, self._exception)
+
+        return True""", """        return True""")
+M("c19-break-flag-after-wake", "C19", "R4.exceptional-exit-breaks-and-wakes-all", "threading.py",
+  """                self._is_broken = True
+                self._exception = exc_val
+                # break the queue and let all waiters know
+                for waiter in self._waiters:
+                    waiter.set()
+""", """                # break the queue and let all waiters know
+                for waiter in self._waiters:
+                    waiter.set()
+                self._is_broken = True
+                self._exception = exc_val
+""")
+M("c19-release-ignores-broken", "C19", "R4.release-wakes-head", "threading.py",
+  "            if self._waiters and not self._is_broken:", "            if self._waiters:")
+M("c19-benign-len-zero-before", "C19", "", "threading.py",
+  """            event = Event()
+            self._waiters.append(event)
+
+            if len(self._waiters) == 1:""", """            event = Event()
+            self._waiters.append(event)
+            n_waiting = len(self._waiters)
+
+            if n_waiting == 1:""", expect="silent")
+
+# ----------------------------------------------------------------------------- C20
+M("c20-context-details-partial", "C20", "R1.field-is-written", "lambda_service.py",
+  """            if self.context_details.replay_children:
+                context_dict["ReplayChildren"] = self.context_details.replay_children
+""", "", desc="part of the repaired defect re-introduced")
+M("c20-truthiness-presence", "C20", "R3.empty-dict-is-not-absence", "lambda_service.py",
+  '        if (wait_details_input := data.get("WaitDetails")) is not None:', '        if wait_details_input := data.get("WaitDetails"):')
+M("c20-key-renamed-one-side", "C20", "R2.same-key", "lambda_service.py",
+  '            "NextAttemptDelaySeconds": self.next_attempt_delay_seconds,', '            "NextAttemptDelay": self.next_attempt_delay_seconds,')
+M("c20-update-drops-wait-options", "C20", "R1.field-is-written", "lambda_service.py",
+  """        if self.wait_options:
+            result["WaitOptions"] = self.wait_options.to_dict()
+""", "")
+M("c20-json-reader-forgets-path", "C20", "R4.json-reader-converts-all-timestamps", "lambda_service.py",
+  """        if ms := data_copy.get("EndTimestamp"):
+            data_copy["EndTimestamp"] = TimestampConverter.from_unix_millis(ms)
+
+""", "")
+M("c20-nested-key-mismatch", "C20", "R2.same-key", "lambda_service.py",
+  '            step_dict: MutableMapping[str, Any] = {"Attempt": self.step_details.attempt}', '            step_dict: MutableMapping[str, Any] = {"Attempts": self.step_details.attempt}')
+M("c20-enum-read-raw", "C20", "R2.enum-conversion", "lambda_service.py",
+  '            action=OperationAction(data["Action"]),', '            action=data["Action"],')
+M("c20-reader-wrong-nested-class", "C20", "R2.nested-model-conversion", "lambda_service.py",
+  "            callback_options = CallbackOptions.from_dict(callback_data)", "            callback_options = WaitOptions.from_dict(callback_data)")
+M("c20-batch-item-key", "C20", "R2.same-key", "concurrency/models.py",
+  '            index=data["index"],', '            index=data["idx"],')
+M("c20-output-error-dropped", "C20", "R1.field-is-written", "execution.py",
+  """        if self.error:
+            result["Error"] = self.error.to_dict()
+""", "")
+M("c20-initial-state-json-no-delegate", "C20", "R4.json-variant-delegates", "execution.py",
+  "            operations = [Operation.from_json_dict(op) for op in input_operations]", "            operations = [Operation.from_dict(op) for op in input_operations]")
+M("c20-benign-reorder-keys", "C20", "", "lambda_service.py",
+  """        return {
+            "TimeoutSeconds": self.timeout_seconds,
+            "HeartbeatTimeoutSeconds": self.heartbeat_timeout_seconds,
+        }""", """        return {
+            "HeartbeatTimeoutSeconds": self.heartbeat_timeout_seconds,
+            "TimeoutSeconds": self.timeout_seconds,
+        }""", expect="silent")
+
+# ----------------------------------------------------------------------------- C15
+M("c15-int-before-bool", "C15", "R", "serdes.py",
+  """            case bool():  # Must come before int
+                return EncodedValue(TypeTag.BOOL, obj)
+            case int():
+                return EncodedValue(TypeTag.INT, obj)""", """            case int():
+                return EncodedValue(TypeTag.INT, obj)
+            case bool():  # Must come before int
+                return EncodedValue(TypeTag.BOOL, obj)""")
+M("c15-date-before-datetime", "C15", "R", "serdes.py",
+  """            case datetime():
+                return EncodedValue(TypeTag.DATETIME, obj.isoformat())
+            case date():
+                return EncodedValue(TypeTag.DATE, obj.isoformat())""", """            case date():
+                return EncodedValue(TypeTag.DATE, obj.isoformat())
+            case datetime():
+                return EncodedValue(TypeTag.DATETIME, obj.isoformat())""")
+M("c15-date-decoded-as-datetime", "C15", "R2.decode-rebuilds-the-encoded-type", "serdes.py",
+  "                return date.fromisoformat(value)", "                return datetime.fromisoformat(value)")
+M("c15-tuple-routed-to-list", "C15", "R2.decode-rebuilds-the-encoded-type", "serdes.py",
+  "                return tuple(self._unwrap(v, self.dispatcher) for v in value)", "                return [self._unwrap(v, self.dispatcher) for v in value]")
+M("c15-dict-fast-path", "C15", "R5.fast-path-domain", "serdes.py",
+  """        if isinstance(obj, list):
+            return all(SerDes.is_primitive(item) for item in obj)
+        return False""", """        if isinstance(obj, list):
+            return all(SerDes.is_primitive(item) for item in obj)
+        if isinstance(obj, dict):
+            return all(SerDes.is_primitive(item) for item in obj.values())
+        return False""")
+M("c15-key-guard-removed", "C15", "R6.non-string-keys-rejected", "serdes.py",
+  """                    if not isinstance(k, str):
+                        # JSON object keys are strings and the decoder cannot restore the key type:
+                        # {1: ...} would silently come back as {"1": ...}
+                        msg = f"Only string keys are supported in dicts, got {type(k)!r}"
+                        raise SerDesError(msg)
+""", "", desc="repaired defect re-introduced")
+M("c15-list-elements-not-wrapped", "C15", "R4.elements-individually-wrapped", "serdes.py",
+  "                    TypeTag.LIST, [self._wrap(v, self.dispatcher) for v in obj]", "                    TypeTag.LIST, [v for v in obj]")
+M("c15-unknown-tag-passthrough", "C15", "R1.unknown-tag-rejected", "serdes.py",
+  """            case _:
+                msg = f"Unknown type tag: {tag}"
+                raise SerDesError(msg)""", """            case _:
+                return value""")
+M("c15-decimal-decoded-as-float", "C15", "R2.decode-rebuilds-the-encoded-type", "serdes.py",
+  "        return Decimal(value)", "        return float(value)")
+M("c15-error-not-wrapped", "C15", "R7.failure-becomes-execution-error", "serdes.py",
+  """        logger.exception("⚠️ Deserialization failed for id: %s", operation_id)
+        msg = f"Deserialization failed for id: {operation_id}"
+        raise ExecutionError(msg) from e""", """        logger.exception("⚠️ Deserialization failed for id: %s", operation_id)
+        raise""")
+M("c15-tuple-in-fast-path", "C15", "R5.fast-path-domain", "serdes.py",
+  "        if isinstance(obj, list):\n            return all(", "        if isinstance(obj, list | tuple):\n            return all(")
+M("c15-uuid-tagged-str", "C15", "R", "serdes.py",
+  "        return EncodedValue(TypeTag.UUID, str(obj))", "        return EncodedValue(TypeTag.STR, str(obj))")
